@@ -208,6 +208,56 @@ pub fn run(maxn: usize) -> (usize, usize, Vec<DFail>) {
         drop(rx);
         check!("Sender::send (Err and nothing retained without receivers)", "no receiver".to_string(), true, tx.send(1).is_err());
     }
+    // ---------------- prelude/vecdeque.rs and the rewrites R-OPTCOMB / R-FORMUT / R-ITER of unit filter
+    {
+        use std::collections::VecDeque;
+        // all strictly ascending deques over 0..maxn+1 (bit masks)
+        let top = maxn.min(6) + 1;
+        for mask in 0u32..(1 << top) {
+            let d: VecDeque<usize> = (0..top).filter(|i| mask & (1 << i) != 0).collect();
+            let dv: Vec<usize> = d.iter().cloned().collect();
+            check!("VecDeque::front/back", format!("{:?}", dv), (dv.first().cloned(), dv.last().cloned()), (d.front().cloned(), d.back().cloned()));
+            for x in 0..=top + 1 {
+                check!("VecDeque::get", format!("{:?} index {}", dv, x), dv.get(x).cloned(), d.get(x).cloned());
+                // partition_point with a monotone predicate: r <= len, everything before r accepted, everything from r rejected
+                let r = d.partition_point(|&i| i < x);
+                let ok = r <= dv.len() && dv[..r].iter().all(|&i| i < x) && dv[r..].iter().all(|&i| !(i < x));
+                check!("VecDeque::partition_point (monotone predicate)", format!("{:?} < {}", dv, x), true, ok);
+                // R-ITER: take_while(..).count() == longest prefix below x
+                let c = d.iter().take_while(|&&idx| idx < x).count();
+                let okc = c <= dv.len() && dv[..c].iter().all(|&i| i < x) && (c == dv.len() || dv[c] >= x);
+                check!("R-ITER: iter().take_while(< len).count() is the longest prefix below len", format!("{:?} < {}", dv, x), true, okc);
+                // R-FORMUT: iter_mut().skip(k) visits items k.. once each, front to back
+                let mut a = d.clone();
+                let mut order = Vec::new();
+                for idx in a.iter_mut().skip(x) {
+                    order.push(*idx);
+                    *idx += 100;
+                }
+                let exp: Vec<usize> = dv.iter().enumerate().map(|(i, &v)| if i >= x { v + 100 } else { v }).collect();
+                check!("R-FORMUT: iter_mut().skip(k) = index loop from k", format!("{:?} skip {}", dv, x), (exp, dv.iter().skip(x).cloned().collect::<Vec<_>>()), (a.iter().cloned().collect::<Vec<_>>(), order));
+            }
+            let mut a = d.clone();
+            for idx in &mut a {
+                *idx += 1;
+            }
+            check!("R-FORMUT: for idx in &mut deque = index loop from 0", format!("{:?}", dv), dv.iter().map(|v| v + 1).collect::<Vec<_>>(), a.iter().cloned().collect::<Vec<_>>());
+        }
+        // R-OPTCOMB: the combinators are their match / if forms, the closure runs at most once
+        for o in [None, Some(3u32)] {
+            let mut calls = 0;
+            let r = o.map(|x| { calls += 1; x + 1 });
+            check!("R-OPTCOMB: Option::map", format!("{:?}", o), (match o { Some(x) => Some(x + 1), None => None }, o.is_some() as u32), (r, calls));
+            let mut calls = 0;
+            let r = o.map_or(false, |x| { calls += 1; x == 3 });
+            check!("R-OPTCOMB: Option::map_or", format!("{:?}", o), (match o { Some(x) => x == 3, None => false }, o.is_some() as u32), (r, calls));
+        }
+        for c in [false, true] {
+            let mut calls = 0;
+            let r = c.then(|| { calls += 1; 7u8 });
+            check!("R-OPTCOMB: bool::then", format!("{}", c), (if c { Some(7u8) } else { None }, c as u32), (r, calls));
+        }
+    }
     // ---------------- prelude/arc.rs
     {
         use std::sync::{Arc, Weak};
